@@ -417,7 +417,7 @@ PROPS = {
             {"bin": "d51_zone_diff_ttl", "crate": "replay_net", "finding": "D51"},
             {"bin": "d52_zone_diff_remove_all", "crate": "replay_net", "finding": "D52", "expect": "fail"},
         ],
-        "explanation": "contracts on the transfer-stream state machine (real text of net/xfr/protocol/interpreter.rs, message and record "
+        "explanation": "XfrZoneUpdateIterator::next (unit xfr, real text): the records of a message go through the processor one by one and in order (the processor state afterwards is the fold `run` of the RFC 5936 / RFC 1995 step function over exactly the records consumed), what is yielded for a record is what process_record said -- DeleteAllRecords first, the record's own update held for the next call --, a parse error or a rejected record ends the call with that error, the call terminates, and the retry-over-TCP signal is given only for an unfinished IXFR whose stream so far is one record. contracts on the transfer-stream state machine (real text of net/xfr/protocol/interpreter.rs, message and record "
                        "types reduced to prelude models): XfrResponseInterpreter::check_response accepts exactly the RFC 5936 section "
                        "2.2.1 header predicate; Inner::new is total (no unreachable!()) and starts the processor in the right mode; "
                        "RecordProcessor::process_record equals one step of the RFC 5936/1995 stream automaton xfr_step (opening SOA "
@@ -425,7 +425,7 @@ PROPS = {
                        "IXFR delete/add phases toggle exactly on SOA records, fallback to AXFR when the second record is not a SOA, "
                        "nothing accepted after the end), with stream-level consequences as lemmas over the step function.",
         "not_covered": "Reconstruction fidelity end to end beyond the 511 version pairs of c10_search_xfr_end_to_end (other record types, zones "
-                       "that need several messages, multi-step IXFR sequences, faults in the stream), XfrZoneUpdateIterator::next (tracing macros, Option::transpose), TSIG on streams, the "
+                       "that need several messages, multi-step IXFR sequences, faults in the stream), TSIG on streams, the "
                        "server side (batcher, responder). Message/record/SOA types are prelude models, not the real generic types.",
         "assumptions": [
             "Message<Bytes>, ParsedRecord, ZoneRecordData, Soa, Rtype, Opcode are reduced prelude models (arbitrary header fields, question type and first answer record)",
